@@ -201,11 +201,13 @@ def explore(ck, n, atm, np, xrun=True):
     from typhon import constants as tc
     gamma_d = 9.80665 / 1003.5
     for _ in range(max(n // 2, 20)):
-        T = rng.uniform(180, 330)
+        T = rng.choice([rng.uniform(100, 400), rng.uniform(180, 330), 100.0, 400.0])
         es = float(water_ld(T))
         p = es * numlib.loguniform(rng, 1.05, 1e6)
-        if p > 1.1e5 and rng.random() < 0.7:
+        if p > 1.1e5 and rng.random() < 0.7 and es * 1.05 < 1.1e5:
             p = rng.uniform(max(es * 1.05, 100.0), 1.1e5)
+        # (above ~375 K the saturation pressure exceeds 1100 hPa: the bound is stated for e_s < p, so
+        # p is then taken above the property's pressure range rather than dropping the temperature)
         g = float(atm.moist_lapse_rate(p, T))
         ck.case(key=("lapse", p, T), kind="lapse", sample={"p": p, "T": T, "lapse": g})
         if not (0 < g < gamma_d * (1 + 1e-15)):
@@ -247,20 +249,27 @@ def main():
     except vlib.InfraError:
         xrun = False
         ck.notes.append("Float driver not available (build broken): cross-run skipped")
-    explore(ck, ck.budget(150, 4000), atm, np, xrun)
+    for _name, c in vlib.load_corpus(PROP):
+        corpus_case(ck, c, atm, np)
+    ck.guard(lambda: explore(ck, ck.budget(150, 4000), atm, np, xrun), what="typhon.physics.atmosphere")
     if ck.broken() and not ck.violations:
-        explore(ck, 4000, atm, np, xrun=False)
+        ck.guard(lambda: explore(ck, 4000, atm, np, xrun=False), what="typhon.physics.atmosphere")
     ck.finish()
 
 
+def corpus_case(ck, c, atm, np):
+    """stored witnesses {"fn", "args", "expect", "rtol"}: value of one function at one point"""
+    fn = c.get("fn")
+    if hasattr(atm, fn or ""):
+        got = float(getattr(atm, fn)(*c["args"]))
+        ck.case(key=("corpus", fn, str(c["args"])), kind="corpus")
+        if abs(got - c["expect"]) > c.get("rtol", 1e-9) * max(abs(c["expect"]), 1e-300):
+            ck.violation("other", f"{fn}({c['args']}) = {got!r}, expected {c['expect']!r}", c)
+
+
 def replay(path):
-    obj = json.load(open(path))
-    print(json.dumps(obj.get("case"), indent=1), obj.get("what"))
     import numpy as np
     from typhon.physics import atmosphere as atm
-    c = obj.get("case") or {}
-    fn = c.get("fn", "")
-    if hasattr(atm, fn):
-        print("REPRODUCED input:", fn, c["args"], "->", getattr(atm, fn)(*c["args"]))
-        raise SystemExit(1)
-    raise SystemExit(1 if c else 0)
+    numlib.replay_by_rerun(PROP, path, lambda: vlib.Check(PROP, pkg="numeric", props="Proofs.Props.C09"),
+                           lambda ck: (ck.guard(lambda: explore(ck, ck.budget(150, 4000), atm, np, xrun=False)),
+                                       [corpus_case(ck, c, atm, np) for _n, c in vlib.load_corpus(PROP)]))
